@@ -172,6 +172,60 @@ def entry_points_part(check):
                 return
 
 
+ODD_ATTRS = ['typescript("readonly")', "swift(5)", 'go(readonly, "x")', 'python(= "str")', "kotlin(,)", 'typescript(readonly,, type = "x")',
+             'typescript(type = )', "swift(type = 5)", 'kotlin(type = "x" "y")', "scala(readonly(nested(deep)))", 'go(type = "a", type = "b")',
+             "serialized_as = 5", 'serialized_as = "Vec<"', 'serialized_as = ""', "skip = \"yes\"", "redacted(really)", 'swift = 5',
+             '"just a string"', "5", "a::b::c", "typescript", "typescript()", "= 3", "skip, , skip", "(nested)", "[1, 2]", "{ a: 1 }",
+             "swift(readonly) swift(other)", "-1", "r#type(x)", "typescript(r#type = \"x\")"]
+
+
+def odd_attrs_part(check):
+    """argument lists of `#[typeshare(..)]` / `#[serde(..)]` that rustc and syn accept (attribute arguments are free-form token trees)
+    but that are not what the attribute parsers expect - on an item, a field, a variant, a struct-variant field: output or a
+    diagnostic, never a panic, an endless loop or a crash; in-process for all six languages and through the binary"""
+    srcs = []
+    for a in ODD_ATTRS:
+        for where in ("field", "variant-field", "item", "variant"):
+            at = "#[typeshare(%s)]" % a
+            if where == "field":
+                src = "#[typeshare]\npub struct S {\n    %s\n    pub f: u8,\n    pub g: String,\n}\n" % at
+            elif where == "variant-field":
+                src = "#[typeshare]\n#[serde(tag = \"t\", content = \"c\")]\npub enum E {\n    V {\n        %s\n        f: u8,\n    },\n    W,\n}\n" % at
+            elif where == "variant":
+                src = "#[typeshare]\n#[serde(tag = \"t\", content = \"c\")]\npub enum E {\n    %s\n    V(u8),\n    W,\n}\n" % at
+            else:
+                src = "#[typeshare]\n%s\npub struct S {\n    pub f: u8,\n}\n" % at
+            srcs.append((a, where, src))
+        srcs.append((a, "serde-field", "#[typeshare]\npub struct S {\n    #[serde(%s)]\n    pub f: u8,\n}\n" % a))
+    reqs, meta = [], []
+    for a, where, src in srcs:
+        for lang in LANGS:
+            reqs.append({"op": "generate", "lang": lang, "config": {"package": "proto" if lang == "go" else "com.example", "type_mappings": {}},
+                         "multi_file": False, "target_os": [], "files": [{"src": src, "crate": "", "file_name": "o", "path": "src/lib.rs"}]})
+            meta.append((a, where, src, lang))
+    for (a, where, src, lang), ans in zip(meta, runner(reqs)):
+        check.saw(("odd-attr", a, where, lang), nontrivial=True)
+        check.count("odd-attr-%s" % ("panic" if "panic" in ans else "ok" if "ok" in ans else "error"))
+        if "panic" in ans:
+            check.violation("%s: `#[%s(%s)]` on a %s: %s" % (lang, "serde" if where == "serde-field" else "typeshare", a, where,
+                            "no answer (endless loop)" if ans.get("hang") else "panic / crash at " + str(ans["panic"])),
+                            case={"source": src, "lang": lang}, impl=ans, failing_input=True)
+            return
+    # and through the binary (the parse happens in a walker thread there)
+    for k, (a, where, src) in enumerate(srcs[:: 7 if not check.thorough else 2]):
+        lang = LANGS[k % 6]
+        with Scratch() as sc:
+            sc.write("proj/src/lib.rs", src)
+            r = run_cli(["--lang", lang, "-o", sc.path("out." + EXT[lang])] + lang_args(lang) + [sc.path("proj")], cwd=sc.dir, timeout=20)
+        check.saw(("odd-attr-cli", a, where, lang), nontrivial=True)
+        check.count("odd-attr-cli")
+        if r["timed_out"] or "panicked at" in r["err"] or r["rc"] not in (0, 1):
+            check.violation("typeshare --lang %s on `#[typeshare(%s)]` (%s): %s" % (lang, a, where, "did not terminate within 20 s" if r["timed_out"]
+                            else "exit status %s %s" % (r["rc"], r["err"][-300:])), case={"source": src, "lang": lang},
+                            impl={"rc": r["rc"], "stderr": r["err"][-1500:]}, failing_input=True)
+            return
+
+
 def big_tree_part(check):
     """source trees much larger than the walker's bounded result channel (100): every file yields a result; with and
     without item errors; single- and multi-file mode; several walker thread counts"""
@@ -287,6 +341,8 @@ def run(check):
         big_tree_part(check)
     if not check.violations:
         entry_points_part(check)
+    if not check.violations:
+        odd_attrs_part(check)
     check.rule += ("; 14 spellings of the input roots (relative, single file, several / overlapping / missing / empty roots) x "
                    "{-o, -d} from inside the crate directory; trees of 130-257 (thorough 513) annotated files in 7 crates - more results than the walker's bounded channel "
                    "holds - clean and with one unsupported item in the middle, single- and multi-file mode, 1/2/8/default walker "
